@@ -1016,7 +1016,111 @@ def run_sequence_record(ctx, cat, d):
 
 
 # ------------------------------------------------------------------------------------------------ numeric stream (K + S)
-def numeric_case(ctx, cat, repo, name, dims, ex, gap=None, fixed=None):
+STEEP_DIMS = {'grid2': (4, 4), 'grid3': (4, 3, 4), 'beam': (4, 4, 5), 'beamCX': (4, 4, 4, 5, 5)}
+LINEAR_AXES = {'beamCX': (1, 2, 3, 4)}
+
+
+def make_steep(rng, shape, tab, axis_i):
+    """values alternating over 2-4 decades between adjacent knots of axis `axis_i` (strictly positive, 6 digits)"""
+    amps = [rng.uniform(2.0, 4.0) for _ in range(16)]      # a different swing at every knot (a symmetric zig-zag has
+    sgn = rng.choice((1, -1))                              # zero slope at the knots and does not undershoot)
+
+    def f(i):
+        return 10 ** (sgn * (amps[i % 16] / 2) * (1 if i % 2 == 0 else -1))
+
+    def scale(t):
+        t = json.loads(json.dumps(t))
+        if shape == 'grid2':
+            t['rate'] = [[_sig(v * f((i, j)[axis_i])) for j, v in enumerate(row)] for i, row in enumerate(t['rate'])]
+        elif shape == 'grid3':
+            t['rate'] = [[[_sig(v * f((i, j, k)[axis_i])) for k, v in enumerate(r)] for j, r in enumerate(pl)] for i, pl in enumerate(t['rate'])]
+        elif shape == 'beam':
+            if axis_i < 2:
+                t['sen'] = [[_sig(v * f((i, j)[axis_i])) for j, v in enumerate(row)] for i, row in enumerate(t['sen'])]
+            else:
+                t['st'] = [_sig(v * f(i)) for i, v in enumerate(t['st'])]
+        else:
+            k = ('qeb', 'qti', 'qni', 'qz', 'qb')[axis_i]
+            t[k] = [_sig(v * f(i)) for i, v in enumerate(t[k])]
+        return t
+
+    if shape == 'beamCX':
+        return dict(metastables={int(m): scale(t) for m, t in tab['metastables'].items()})
+    return scale(tab)
+
+
+def steep_points(rng, shape, tab, axis_i):
+    """every grid point (they must still reproduce) + four interior points per cell of the steep axis, the other
+    coordinates once at a knot and once inside a cell"""
+    second = None
+    if isinstance(axis_i, (tuple, list)):
+        axis_i, second = axis_i[0], axis_i[1]
+    axs = axes_of(shape, tab)
+    lin = LINEAR_AXES.get(shape, ())
+    pts = [('knot', [axs[d][i] for d, i in enumerate(idx)], dict(idx=list(idx)))
+           for idx in itertools.product(*[range(len(a)) for a in axs])]
+
+    def between(d, a, i, fr):
+        return a[i] + fr * (a[i + 1] - a[i]) if d in lin else a[i] ** (1 - fr) * a[i + 1] ** fr
+
+    a = axs[axis_i]
+    for i in range(len(a) - 1):
+        for fr in (0.12, 0.38, 0.62, 0.88):
+            for inside in (False, True):
+                p = []
+                for d, b in enumerate(axs):
+                    if d == axis_i:
+                        p.append(between(d, a, i, fr))
+                    elif d == second and len(b) > 1:
+                        # the second steep axis: also at an undershoot-prone position of a random cell
+                        p.append(between(d, b, rng.randrange(len(b) - 1), rng.choice((0.12, 0.38, 0.62, 0.88))))
+                    elif len(b) == 1 or not inside:
+                        p.append(b[rng.randrange(len(b))])
+                    else:
+                        j = rng.randrange(len(b) - 1)
+                        p.append(between(d, b, j, rng.uniform(0.2, 0.8)))
+                pts.append(('steep', p, dict(axis=axis_i, cell=i, fraction=fr, second=second)))
+    return pts
+
+
+def cx_double_negative_points(r, tab, pair):
+    """directed search: positions on both steep axes where raysect's cubic undershoots below zero, combined, so that
+    two negative factors meet (their product is positive; only the intermediate clamp makes the rate 0)"""
+    axs = axes_of('beamCX', tab)
+    fns = [r._eb, r._ti, r._ni, r._zeff, r._b]
+    neg = {}
+    for d in pair:
+        a = axs[d]
+        neg[d] = []
+        for i in range(len(a) - 1):
+            for k in range(1, 20):
+                x = a[i] + k / 20.0 * (a[i + 1] - a[i])
+                try:
+                    if fns[d](x) < 0:
+                        neg[d].append(x)
+                except ValueError:
+                    pass
+    pts = []
+    for x in neg[pair[0]][:: max(1, len(neg[pair[0]]) // 4)][:4]:
+        for y in neg[pair[1]][:: max(1, len(neg[pair[1]]) // 3)][:3]:
+            p = [a[0] for a in axs]
+            p[pair[0]], p[pair[1]] = x, y
+            pts.append(('steep', p, dict(axis=pair[0], second=pair[1], double_negative=True)))
+    return pts
+
+
+def cx_chain_line(r, args):
+    """`cxf` line: raysect's own values of the five interpolators of the BeamCXPEC object `r` at `args`"""
+    def ev(fn, x):
+        try:
+            return f2b(float(fn(x)))
+        except ValueError:
+            return 'VE'
+    en, t, d, z, b = args
+    return ' '.join(['cxf', f2b(en), f2b(t), f2b(d), ev(r._eb, math.log10(en)), ev(r._ti, t), ev(r._ni, d), ev(r._zeff, z), ev(r._b, b)])
+
+
+def numeric_case(ctx, cat, repo, name, dims, ex, gap=None, fixed=None, steep=None):
     """build one repository + accessor call; returns dict with driver line(s) and observations.
     `fixed` (replay): dict(species, ch, tr, tab, wls, fb, extra) instead of generated content"""
     from cherab.openadas import OpenADAS, repository as R
@@ -1036,6 +1140,9 @@ def numeric_case(ctx, cat, repo, name, dims, ex, gap=None, fixed=None):
     req_key = tuple(species)
     tabs = {}
     tab = fixed['tab'] if fixed else gen_table(rng, shape, dims, gap)
+    if steep is not None and not fixed:
+        for ax_ in (steep if isinstance(steep, tuple) else (steep,)):
+            tab = make_steep(rng, shape, tab, ax_)
     spec['write'](root, elem_key, ch, tr, json.loads(json.dumps(tab)) if shape != 'beamCX' else _cx_copy(tab))
     tabs[tuple(key_syms(elem_key))] = tab
     if tuple(key_syms(req_key)) not in tabs and not fixed and rng.random() < 0.7:
@@ -1057,6 +1164,7 @@ def numeric_case(ctx, cat, repo, name, dims, ex, gap=None, fixed=None):
     repo.drop(root)
     return dict(name=name, spec=spec, species=species, ch=ch, tr=tr, tabs=tabs, elem_syms=tuple(key_syms(elem_key)), wls=wls, fb=fb, ex=ex,
                 st=st, val=val, in_list=in_list, dims=dims, extra=(fixed or {}).get('extra'),
+                steep=steep if steep is not None else (fixed or {}).get('steep'),
                 pol=pol_line(name, False, fb, list(zip(spec['species'], species)), [list(k) for k in tabs], sorted(wls)))
 
 
@@ -1070,7 +1178,7 @@ def numeric_stream(ctx, cat, plan):
     cases = [numeric_case(ctx, cat, repo, *p) for p in plan]
     repo.close()
     pol_out = drive(ctx, [c['pol'] for c in cases])
-    lines, index = [], []
+    lines, index, chain_cases = [], [], []
     for c, po in zip(cases, pol_out):
         spec, shape = c['spec'], c['spec']['shape']
         desc = dict(kind='numeric', accessor=c['name'], species=[s.name for s in c['species']], charges=c['ch'], transition=list(c['tr']),
@@ -1118,7 +1226,12 @@ def numeric_stream(ctx, cat, plan):
             m = getattr(r, 'donor_metastable', None) if shape == 'beamCX' else None
             wt = c['want_tab']['metastables'][m] if shape == 'beamCX' else c['want_tab']
             mt = (c['model_tab']['metastables'][m] if shape == 'beamCX' else c['model_tab']) if c['model_tab'] else None
-            pts = eval_points(ctx.rng, shape, wt, ctx.n(5, 12))
+            if c.get('steep') is not None:
+                pts = steep_points(ctx.rng, shape, wt, c['steep'])
+            else:
+                pts = eval_points(ctx.rng, shape, wt, ctx.n(5, 12))
+            if shape == 'beamCX' and isinstance(c.get('steep'), (tuple, list)):
+                pts += cx_double_negative_points(r, wt, c['steep'])
             if c.get('extra'):
                 pts.append((c['extra']['point'], c['extra']['args'], c['extra']['info']))
             res = [impl_eval(r, p[1]) for p in pts]
@@ -1126,7 +1239,28 @@ def numeric_stream(ctx, cat, plan):
                 _broke(ctx, 'numeric stream ' + c['name'], dict(input=desc, model=po, implementation='rate object'))
                 continue
             lines.append(rate_line(spec['cls'], shape, c['ex'], c['model_wl'], mt, [p[1] for p in pts]))
-            index.append((c, wt, res, pts, dict(desc, metastable=m, table=wt)))
+            index.append((c, wt, res, pts, dict(desc, metastable=m, table=wt, steep=c.get('steep'))))
+            if shape == 'beamCX' and c.get('steep') is not None:
+                for (kind, args, info), (ist, iv) in zip(pts, res):
+                    if all(x > 0 for x in args[:3]):
+                        chain_cases.append((cx_chain_line(r, args), kind, args, ist, iv, dict(desc, metastable=m, table=wt, steep=c['steep'], args=args, point=kind, info=info)))
+    chain_out = drive(ctx, [x[0] for x in chain_cases]) if chain_cases else []
+    for (line, kind, args, ist, iv, d), out in zip(chain_cases, chain_out):
+        # K, clamp structure: the model's chain (guard + clamp flags read from the source) on raysect's own factor values
+        ctx.traces += 1
+        mst, mv = parse_out(out)
+        facs = [b2f(t) for t in line.split()[5:] if t != 'VE']
+        if any(f < 0 for f in facs):
+            ctx.count('steep:negative-factor')
+        if sum(1 for f in facs[1:] if f < 0) >= 2:
+            ctx.count('steep:two-negative-factors')
+        if ist == 'ok' and iv == 0.0:
+            ctx.count('steep:clamp-fired')
+        agree = ist == mst and (ist != 'ok' or (close(iv, mv, 1e-9) and (iv == 0.0) == (mv == 0.0)))
+        if not agree:
+            ctx.disagreements += 1
+            ctx.count('disagreement:chain')
+            _broke(ctx, 'BeamCXPEC clamp chain', dict(input=d, model=[mst, mv], implementation=[ist, iv], factors=facs))
     outs = drive(ctx, lines) if lines else []
     for (c, wt, res, pts, desc), out in zip(index, outs):
         spec, shape = c['spec'], c['spec']['shape']
@@ -1194,7 +1328,7 @@ def rate_oracle(ctx, c, shape, wt, kind, args, info, ist, iv, d):
                 sig = 'C07:%s:wavelength-not-of-requested-species' % name
             fail(ctx, sig, '%s via %s at grid point %r returned %r, stored value after conversion is %r' % (cls, name, args, iv, want), d)
         return
-    if kind == 'interior':
+    if kind in ('interior', 'steep'):
         if ist != 'ok':
             fail(ctx, 'C07:%s:raises-inside-range' % cls, '%s%r raised %s strictly inside the tabulated range' % (cls, tuple(args), ist), d)
         return
@@ -1266,6 +1400,23 @@ def plan_numeric(ctx, cat):
                 plan.append((name, dims, False, (axis_i, end)))
                 if ctx.tier == 'thorough':
                     plan.append((name, dims, True, (axis_i, end)))
+    # steep tables: every class (through its accessor), every axis, both extrapolation settings
+    for rep in range(ctx.n(1, 6)):
+        for name, spec in cat.items():
+            base = STEEP_DIMS[spec['shape']]
+            for axis_i in range(len(base)):
+                dims = base
+                if spec['shape'] == 'beamCX':
+                    # independent 1-D factors: many knots on the steep axis, two elsewhere
+                    dims = tuple(6 if d == axis_i else 2 for d in range(len(base)))
+                for ex in (False, True):
+                    plan.append((name, dims, ex, None, None, axis_i))
+            if spec['shape'] == 'beamCX':
+                # two steep linear-space factors at once: two negative factors multiply to a positive number, which
+                # only the intermediate clamps turn into 0
+                for pair in ((1, 2), (2, 3), (3, 4), (1, 4), (2, 4), (1, 3)):
+                    dims = tuple(6 if d in pair else 2 for d in range(len(base)))
+                    plan.append((name, dims, rng.random() < 0.5, None, None, pair))
     return plan
 
 
@@ -1274,7 +1425,8 @@ def deviants_tie(ctx):
     out = drive(ctx, ['deviants'])[0]
     pol = [x for x in out.split()[0].split(':', 1)[1].split(',') if x]
     grd = [x for x in out.split()[1].split(':', 1)[1].split(',') if x]
-    ctx.extra['table_deviants'] = dict(policy=pol, guards=grd)
+    clm = [x for x in out.split()[2].split(':', 1)[1].split(',') if x] if len(out.split()) > 2 else []
+    ctx.extra['table_deviants'] = dict(policy=pol, guards=grd, clamps=clm)
     acc_fail = sorted({sg.split(':')[1] for sg in SIGNATURES
                        if sg.split(':')[1] in ACCESSOR_NAMES and 'grid-point' not in sg and ':sequence:' not in sg})
     grd_fail = sorted({sg.split(':')[1] for sg in SIGNATURES if ':nonpositive-' in sg})
@@ -1313,7 +1465,9 @@ def setup(ctx):
 
 
 def describe(ctx):
-    ctx.rule = ('sequence: one provider instance answering random permutations of all requests (species variant x charge x transition x '
+    ctx.rule = ('steep: per accessor and axis, tables swinging 2-4 decades between adjacent knots, four interior points per cell (and, for BeamCXPEC, '
+                'two steep factors at once with a directed search for two simultaneous undershoots), S: value >= 0 and finite, K: BeamCXPEC clamp chain on '
+                'the interpolator values raysect itself returns; sequence: one provider instance answering random permutations of all requests (species variant x charge x transition x '
                 'metastable) and every ordered pair of requests differing in one coordinate, against a fresh provider and the stateless model, '
                 'distinct by (accessor, flags, last two requests); policy: exhaustive product accessor x species kinds (element / isotope / isotope sharing the element symbol) x stored key subsets '
                 'x stored wavelength subsets x 8 flag settings, distinct by that tuple; numerics: per accessor generated positive tables over the shape '
@@ -1390,7 +1544,7 @@ def run_record(ctx, cat, repo, d, verbose=False):
         if spec['shape'] == 'beamCX':
             tab = dict(metastables={int(d.get('metastable') or 1): tab})
         fixed = dict(species=[getattr(E, n) for n in d['species']], ch=d['charges'], tr=tuple(d['transition']), tab=tab, wls=d['wavelengths'],
-                     fb=d['fallback'], extra=dict(point=d['point'], args=d['args'], info=d['info']) if 'args' in d else None)
+                     fb=d['fallback'], steep=d.get('steep'), extra=dict(point=d['point'], args=d['args'], info=d['info']) if 'args' in d else None)
         numeric_stream(ctx, cat, [(d['accessor'], tuple(d['dims']), d['extrapolate'], None, fixed)])
         return True
     else:
